@@ -12,6 +12,11 @@ NOTE = ("Trusted base: go/packages + go/types + go/ssa of golang.org/x/tools v0.
 
 # id -> (technique, text)
 CLAIMED = {
+ 'C06': ("static analysis: ownership closure of position stores, must-fact dataflow with a phi-aware prover (GUARD), lock-hold dataflow, loop-invariant check of the minimum in Sync",
+         "Closes, by whole-program ownership, the set of sites that store a group's consumed/ack or the queue ack, and decides for each site the guard or pairing that preserves "
+         "ack <= consumed <= appended and queue-ack <= min(group acks): comparison facts that hold on every path to the store inside one lock hold; resets that write all positions "
+         "from one value; the constructor's initial pair proved ordered through the clamps; Sync's argument proved a running minimum that visits every group; truncation strictly "
+         "below the ack's page and reachable only from GC; persistence of every store to the agreed meta offset. Necessary conditions for all histories/schedules; readability of bytes is not decided."),
  'C05': ("static analysis: lock-hold dataflow (ATOMIC), dominance (ORDER), value provenance and writer/reader layout agreement over go/ssa",
          "Decides, for every path of the append code as written, that one Put is a single write hold of queue.rwMutex covering cursor advance, data write, "
          "index entry, meta write and sequence publication; that data<index<meta<publish<signal is the only order; that the published sequence is appendedSeq+1 "
